@@ -3,6 +3,7 @@
    parts.py builds      -> lines 'cmd<TAB>race' of every binary to build
    parts.py merge <id> <tier> -> merge evidence/parts/<id>.*.json into evidence/<id>.json"""
 import json, glob, os, sys
+OUT = os.environ.get("VERIF_OUT", "/verif")
 def allparts():
     for f in sorted(glob.glob("/verif/cmd/*/META.json")):
         cmd = os.path.basename(os.path.dirname(f))
@@ -22,7 +23,7 @@ elif mode == "merge":
     want = [c.get("part", "main") for cmd, c in allparts() if c["id"] == pid]
     evs = []
     for part in want:
-        path = f"/verif/evidence/parts/{pid}.{part}.json"
+        path = f"{OUT}/evidence/parts/{pid}.{part}.json"
         if not os.path.exists(path):
             sys.exit(f"merge: missing part evidence {path}")
         evs.append((part, json.load(open(path))))
@@ -43,6 +44,6 @@ elif mode == "merge":
         out["wall_s"] += e.get("wall_s", 0)
         out["violations"] += e.get("violations", 0)
     cov["rule"] = " ".join(rules)
-    tmp = f"/verif/evidence/.{pid}.{os.getpid()}.tmp"
+    tmp = f"{OUT}/evidence/.{pid}.{os.getpid()}.tmp"
     json.dump(out, open(tmp, "w"), indent=1)
-    os.replace(tmp, f"/verif/evidence/{pid}.json")
+    os.replace(tmp, f"{OUT}/evidence/{pid}.json")
